@@ -103,7 +103,7 @@ Hint Resolve np_compile_value : np.
 
 Lemma np_aggregate_values vs : np (aggregate_values vs).
 Proof.
-  unfold aggregate_values. apply np_bind; [|intros; exact I].
+  unfold aggregate_values. apply np_bind; [|intros; destruct (totals_fit _ _); exact I].
   assert (H : forall a, np a -> np (fold_left (fun acc v => a0 <- acc ;; let x := match v with VCoin x | VMulti x _ => x end in
                                                  if (a0 + x <? 2 ^ 64)%Z then Ok (a0 + x)%Z else Err "CoerceError") vs a)).
   { induction vs as [|v vs IH]; intros a Ha; [exact Ha|]. cbn [fold_left]. apply IH. apply np_bind; [exact Ha|]. np_tac. }
